@@ -1730,6 +1730,12 @@ class Choice(Type):
                 raise e
             length -= (offset - decoder.number_of_bits)
 
+            if length < 0:
+                raise DecodeError(
+                    'Extension addition is longer than its open type length.',
+                    offset=decoder.number_of_read_bits(),
+                    location=addition)
+
         decoder.skip_bits(length)
 
         return (name, decoded)
